@@ -104,13 +104,13 @@ def tagged(src, tag):
     return res
 
 
-def shard_trace(trace, nshards, workdir):
+def shard_trace(trace, nshards, workdir, reset_prefix='{"ev":"reset"'):
     """Split an ndjson trace at `reset` boundaries into <= nshards files; returns [(path, first_line_no)]."""
     with open(trace) as f:
         lines = f.readlines()
     if not lines:
         return []
-    starts = [i for i, l in enumerate(lines) if l.startswith('{"ev":"reset"')]
+    starts = [i for i, l in enumerate(lines) if l.startswith(reset_prefix)]
     if not starts or starts[0] != 0:
         starts = [0] + starts
     per = max(1, len(lines) // nshards)
@@ -153,10 +153,10 @@ def tlc_trace(spec, cfg, tracefile, workdir, idx, timeout=3000):
     return res
 
 
-def validate_trace(spec, cfg, trace, workdir, nshards=None):
+def validate_trace(spec, cfg, trace, workdir, nshards=None, reset_prefix='{"ev":"reset"'):
     """Shard and validate; returns merged result with global line numbers."""
     nshards = nshards or max(1, min(NCPU - 2, 12))
-    shards = shard_trace(trace, nshards, workdir)
+    shards = shard_trace(trace, nshards, workdir, reset_prefix)
     merged = dict(mismatch=[], known=[], drift=[], events=0, shards=len(shards), stopped=[])
     if not shards:
         return merged
@@ -272,7 +272,11 @@ def absorb_trace(outcome, merged, prop, trace_lines, case_of_line, known_text):
         raise ToolError(f"trace validation stopped: {s}")
 
 
-from props_core import REGISTRY  # noqa: E402
+from props_core import REGISTRY as _R1  # noqa: E402
+from props_jsr import REGISTRY as _R2  # noqa: E402
+REGISTRY = {}
+REGISTRY.update(_R1)
+REGISTRY.update(_R2)
 
 
 def main(argv):
